@@ -69,3 +69,35 @@ theorem gen_pubkey_address_commits (sha256 : Bytes → Bytes) (hlen : ∀ b, (sh
   simpa using this
 
 end C10GenPub
+
+namespace C10GenPub
+open Py Model Spec C10Gen C09Gen
+
+/-- `Address.__init__(address=…)`, translated from the constructor itself (the `if hash160:` arm tests a parameter that is None): it is
+the composition `C10Gen.genAccept` was written as by hand — so `gen_accept_sound` and `gen_roundtrip` are statements about the
+translated constructor branch -/
+theorem gen_address_init_address (sha256 : Bytes → Bytes) (ty : String) (pk ps : Bytes) (s : String) :
+    Gen.address_init_address sha256 decP ty pk ps s = genAccept sha256 ty pk ps s := by
+  unfold Gen.address_init_address genAccept
+  by_cases he : s.isEmpty = true
+  · simp only [he, Bool.not_true, Bool.false_eq_true, if_false, if_true]
+    rfl
+  · have he' : s.isEmpty = false := by simpa using he
+    simp only [he', Bool.not_false, if_true, Bool.false_eq_true, if_false]
+    cases hv : Gen.is_address_valid sha256 decP ty pk ps s with
+    | error e => rfl
+    | ok v =>
+      cases v with
+      | true =>
+        simp only [ok_bind, if_true, Bool.not_true, Bool.false_eq_true, if_false]
+      | false => rfl
+
+/-- acceptance soundness for the translated constructor branch -/
+theorem gen_ctor_accept_sound (sha256 : Bytes → Bytes) (ty : String) (hty : ty = "p2pkh" ∨ ty = "p2sh") (pk ps : Bytes)
+    (hp : (if ty = "p2pkh" then pk else ps).length = 1) (s : String) (h : Bytes)
+    (ha : Gen.address_init_address sha256 decP ty pk ps s = .ok h) :
+    h.length = 20 ∧ B58.uncheck (fun b => sha256 (sha256 b)) s = some ((if ty = "p2pkh" then pk else ps) ++ h) := by
+  rw [gen_address_init_address] at ha
+  exact gen_accept_sound sha256 ty hty pk ps hp s h ha
+
+end C10GenPub
